@@ -248,6 +248,10 @@ fn plan10(seed: u64, run: u64, tier: Tier) -> Plan10 {
         reads.push(if rng.chance(1, 3) { ReadAct::Err(IoKind::Interrupted) } else { ReadAct::Give(rng.range(1, 9)) });
     }
     benign.reads = reads;
+    if rng.chance(1, 3) {
+        benign.open_latency_ms = *rng.pick(&[10, 2500, 90_000]);
+        benign.read_latency_ms = *rng.pick(&[1, 800, 5000]);
+    }
     // fatal plan: at least one non-retryable fault
     let mut fatal = FaultPlan::default();
     match rng.below(5) {
